@@ -56,6 +56,9 @@ def _workdir():
 
 def build_doc(case, d):
     kind, depth, inject = case["kind"], case["depth"], set(case["inject"])
+    infile = kind in ("jcmdf", "jvarsf", "jfilef")  # the template text stands in a file (path + template)
+    if infile:
+        kind = kind[:-1]
     varspath = {"inside": "base/vars.py", "outside": "out/vars.py", "symlink": "base/link.py", "sibling": "base_evil/vars.py"}[case["pathclass"]]
     if kind == "file":
         item = {"type": "file_placeholders", "path": os.path.join(d, "values.txt"), "include": ["ph"]}
@@ -78,6 +81,11 @@ def build_doc(case, d):
         item = {"type": "set_state", "key": "k", "val": "v"}  # (the text is written by hand in drive_case)
     else:
         item = {"type": "template", "template": "{{ queries | join(',') }}", "vars": os.path.join(d, varspath)}
+    if infile:
+        name = f"tmpl_{kind}.j2"
+        with open(os.path.join(d, "base", name), "w") as f:
+            f.write(item["template"])
+        item = {"type": "template", "path": os.path.join(d, "base"), "template": name}
     if "item" in inject:
         item.update(optins(d, kind))
     stage = {"file": "transformations", "http": "transformations", "command": "transformations", "ptemplate": "postprocessing", "ftemplate": "finalizers",
@@ -125,7 +133,7 @@ def drive_case(case):
         sys.addaudithook(_hook)
         _HOOKED[0] = True
     d = _workdir()
-    cap = "ext" if case["kind"] in ("file", "http", "command", "jcmd", "jfile", "ytag") else "vars"
+    cap = "ext" if case["kind"] in ("file", "http", "command", "jcmd", "jfile", "jcmdf", "jfilef", "ytag") else "vars"
     envname = "PYSIGMA_ALLOW_EXTERNAL_SOURCES" if cap == "ext" else "PYSIGMA_ALLOW_VARS_EXECUTION"
     saved = {k: os.environ.get(k) for k in ("PYSIGMA_ALLOW_EXTERNAL_SOURCES", "PYSIGMA_ALLOW_VARS_EXECUTION")}
     for k in saved:
@@ -200,7 +208,8 @@ def drive_case(case):
             cur = cur.__cause__ or cur.__context__
         o["security"] = "SigmaSecurityError" in chain or "security" in str(e).lower()
     finally:
-        o["events"] = [e for e in EVENTS if e not in ("open:pipeline.yml",)]
+        # (reading the pipeline file and reading / compiling the template FILE an item names is what loading means)
+        o["events"] = [e for e in EVENTS if e not in ("open:pipeline.yml",) and ":tmpl_" not in e]
         _WATCH["paths"] = ()
         for k, v in saved.items():
             os.environ.pop(k, None)
